@@ -85,9 +85,39 @@ def predicted_kinds():
     return out
 
 
+def translator_diagnostics():
+    """why the generated instance cannot satisfy the certified checkers, in the translator's words (the Coq error only says
+    `true` is not `false`)"""
+    import callgraph
+    import gen_effects
+    g = callgraph.Graph(core.REPO)
+    out = []
+    allowed = {"recheck": {"Read"}, "info": {"Read"}, "magnet": {"Read"}, "create": {"Read", "Write", "Remove"},
+               "rename": {"Read", "Rename"}, "rebuild": {"Read", "Mkdir", "Copy"}}
+    for name, ok in allowed.items():
+        for q in sorted(g.reach(gen_effects.command_roots(g, core.REPO, name))):
+            f = g.fns[q]
+            for why in f.unknown:
+                out.append(f"`{name}` reaches {q}: Unknown ({why})")
+            for k, d in sorted(set(f.effects)):
+                if k not in ok:
+                    out.append(f"`{name}` reaches {q}: effect {k} ({d}) outside {sorted(ok)}")
+    for why in gen_effects.metafile_write_shape(core.REPO, g):
+        out.append(f"torrent.MetaFile.write is not the single truncating write of the output that create_fs models: {why}")
+    pops, rops = gen_effects.gen_create_ops(core.REPO)
+    if "PUnknown" in pops:
+        out.append(f"utils.check_path_writable is not of the modelled shape: {pops}")
+    if "RUnknown" in rops:
+        out.append(f"commands.rename is not of the modelled shape: {rops}")
+    return out
+
+
 def run(ctx, model_ok):
     try:
         pred = predicted_kinds()
+        diag = translator_diagnostics()
+        if diag:
+            ctx.broken.append("translator diagnostics: " + " | ".join(dict.fromkeys(diag)))
     except Exception as e:  # noqa
         pred = None
         ctx.broken.append(f"call-graph translator crashed: {type(e).__name__}: {e}")
@@ -137,8 +167,8 @@ def run(ctx, model_ok):
             rc, out, ev = run_cli(sb, cwdp, argv_fn(payload, mf), counter[0])
             after = snapshot(sb)
             d = diff(before, after)
-            inp = {"command": spelling, "argv": argv_fn("<payload>", "<metafile>"), "version": version, "damaged": damaged,
-                   "cwd": cwd}
+            inp = {"command": spelling, "argv": argv_fn("<data>/payload", "<metas>/m.torrent"), "version": version,
+                   "damaged": damaged, "cwd": cwd}
             if d:
                 ctx.fail(f"{cmdname}-modified-filesystem", inp, "nothing created, changed or deleted (payload, metafile directory, "
                          "working directory, HOME)", d)
